@@ -513,7 +513,8 @@ def mpf_out_str (s : OStream) (base : Int) (str : List Nat) (exp : Int) : Int ×
   let (s3, _) := s2.write [46]                    -- fwrite (point, 1, pointlen): "." in the C locale
   let written := written + 2
   let (s4, fwret) := s3.write digs
-  let etext := (if base ≤ 10 then 101 else 64) :: intText exp
+  -- the marker is chosen on |base| (out_str.c:103 with ABS (base)): 'e' is a digit above base 10
+  let etext := (if base.natAbs ≤ 10 then 101 else 64) :: intText exp
   let (s5, n) := s4.write etext                   -- fprintf (stream, "e%ld" / "@%ld", exp)
   let fpret : Int := if n = etext.length then n else -1
   (if s5.err then 0 else (written + fwret : Nat) + fpret, s5)
